@@ -76,6 +76,11 @@ func NewPeer(fd net.Conn) IPeer {
 
 // DoHandshake do handshake when connection
 func (p *Peer) DoHandshake(prv *ecdsa.PrivateKey, nodeID *NodeID) (err error) {
+	// a remote that stays silent must not block the caller for ever (all dialing is done by one goroutine)
+	if err := p.conn.SetDeadline(time.Now().Add(frameReadTimeout)); err != nil {
+		return err
+	}
+	defer p.conn.SetDeadline(time.Time{})
 	// as server
 	if nodeID == nil {
 		s, err := serverEncHandshake(p.conn, prv, nil)
